@@ -94,19 +94,80 @@ Proof.
   rewrite Ht1. reflexivity.
 Qed.
 
+(* what declare_fault returns is the handler code of the table *)
+Lemma declare_fault_handler : forall cond s s' fh,
+  declare_fault cond s = (s', Ok fh) -> get_fault_handler (l_faults (d_cfg s)) cond = Some fh.
+Proof.
+  intros cond s s' fh. unfold declare_fault, gp, gets, bind.
+  destruct (p_tid (d_p s)) as [[a b]|]; [|discriminate].
+  destruct (get_fault_handler (l_faults (d_cfg s)) cond) as [h|]; [|discriminate].
+  match goal with |- context[match ?m s with _ => _ end] => destruct (m s) as [s0 [[]|e]] end; [|discriminate].
+  unfold emit, modify. destruct (h =? FH_ABANDON); [discriminate|].
+  unfold ret. intros H. inversion H. reflexivity.
+Qed.
+
+(* the limit-th expiry, handler of Check Limit Reached not IGNORE (statement corrected after the F34 repair: an ignored
+   fault now counts and restarts the timer, see expiry_limit_ignored) *)
 Lemma expiry_limit : forall s t r s1,
   p_check_timer (d_p s) = Some t -> p_rcfg (d_p s) = Some r -> timed_out (now_d s) t = true ->
   checksum_verify s = (s1, Ok false) -> p_rcfg (d_p s1) = Some r ->
   r_check_limit r <= p_check_count (d_p s1) + 1 ->
+  get_fault_handler (l_faults (d_cfg s1)) C_CHECK_LIMIT <> Some FH_IGNORE ->
   check_limit_handling s = (fst (declare_fault C_CHECK_LIMIT s1),
                             match snd (declare_fault C_CHECK_LIMIT s1) with Ok _ => Ok tt | Err e => Err e end).
 Proof.
-  intros s t r s1 Ht Hr Hto Hcv Hr1 Hlim. unfold now_d in *.
+  intros s t r s1 Ht Hr Hto Hcv Hr1 Hlim Hni. unfold now_d in *.
   assert (r_check_limit r <=? p_check_count (d_p s1) + 1 = true) as Hle by (apply Z.leb_le; lia).
   unfold check_limit_handling, rcfg_or_assert, now, gp, gets, bind, ret.
   rewrite Ht. cbv beta iota. rewrite Hr. cbv beta iota. rewrite Hto. cbv beta iota.
   rewrite Hcv. cbv beta iota. rewrite Hr1. cbv beta iota. rewrite Hle. cbv beta iota.
-  destruct (declare_fault C_CHECK_LIMIT s1) as [s' [x|e]]; reflexivity.
+  destruct (declare_fault C_CHECK_LIMIT s1) as [s' [x|e]] eqn:Edf; [|reflexivity].
+  apply declare_fault_handler in Edf.
+  destruct (x =? FH_IGNORE) eqn:Ex; [|reflexivity].
+  apply Z.eqb_eq in Ex. subst x. contradiction.
+Qed.
+
+(* the limit-th expiry with Check Limit Reached handled by IGNORE (F34 repair): one callback, and the expiry is counted
+   and the timer restarted exactly as below the limit *)
+Lemma expiry_limit_ignored : forall s t r s1 a b tmo0 t0,
+  p_check_timer (d_p s) = Some t -> p_rcfg (d_p s) = Some r -> timed_out (now_d s) t = true ->
+  checksum_verify s = (s1, Ok false) -> p_rcfg (d_p s1) = Some r -> p_check_timer (d_p s1) = Some (t0, tmo0) ->
+  p_tid (d_p s1) = Some (a, b) ->
+  r_check_limit r <= p_check_count (d_p s1) + 1 ->
+  get_fault_handler (l_faults (d_cfg s1)) C_CHECK_LIMIT = Some FH_IGNORE ->
+  check_limit_handling s =
+    (s1 <| d_env ::= (fun en => en <| e_log ::= cons (EvFault FH_IGNORE a b C_CHECK_LIMIT (p_progress (d_p s1))) |>) |>
+        <| d_p ::= (fun p => p <| p_check_count ::= (fun c => c + 1) |> <| p_check_timer := Some (now_d s, tmo0) |>) |>, Ok tt).
+Proof.
+  intros s t r s1 a b tmo0 t0 Ht Hr Hto Hcv Hr1 Ht1 Htid Hlim Hfh. unfold now_d in *.
+  assert (r_check_limit r <=? p_check_count (d_p s1) + 1 = true) as Hle by (apply Z.leb_le; lia).
+  unfold check_limit_handling, rcfg_or_assert, now, setp, modify, gp, gets, bind, ret.
+  rewrite Ht. cbv beta iota. rewrite Hr. cbv beta iota. rewrite Hto. cbv beta iota.
+  rewrite Hcv. cbv beta iota. rewrite Hr1. cbv beta iota. rewrite Hle. cbv beta iota.
+  unfold declare_fault, emit, modify, gp, gets, bind, ret.
+  rewrite Htid, Hfh. change (FH_IGNORE =? FH_CANCEL) with false. change (FH_IGNORE =? FH_ABANDON) with false.
+  change (FH_IGNORE =? FH_IGNORE) with true. cbv beta iota.
+  destruct s1 as [cfg st step stid ready q p env]. cbn in Ht1 |- *. rewrite Ht1. reflexivity.
+Qed.
+
+(* ... and it is not declared again by the following calls: until the restarted timer expires a call changes nothing *)
+Lemma expiry_limit_ignored_once : forall s t r s1 a b tmo0 t0 dt,
+  p_check_timer (d_p s) = Some t -> p_rcfg (d_p s) = Some r -> timed_out (now_d s) t = true ->
+  checksum_verify s = (s1, Ok false) -> p_rcfg (d_p s1) = Some r -> p_check_timer (d_p s1) = Some (t0, tmo0) ->
+  p_tid (d_p s1) = Some (a, b) ->
+  r_check_limit r <= p_check_count (d_p s1) + 1 ->
+  get_fault_handler (l_faults (d_cfg s1)) C_CHECK_LIMIT = Some FH_IGNORE ->
+  now_d s1 = now_d s -> dt < tmo0 ->
+  let s2 := fst (check_limit_handling s) <| d_env ::= (fun en => en <| e_now ::= Z.add dt |>) |> in
+  check_limit_handling s2 = (s2, Ok tt).
+Proof.
+  intros s t r s1 a b tmo0 t0 dt Ht Hr Hto Hcv Hr1 Ht1 Htid Hlim Hfh Hnow Hdt s2. subst s2.
+  rewrite (expiry_limit_ignored s t r s1 a b tmo0 t0 Ht Hr Hto Hcv Hr1 Ht1 Htid Hlim Hfh). cbn [fst].
+  apply (not_expired _ (now_d s, tmo0) r).
+  - destruct s1 as [cfg st step stid ready q p env]. reflexivity.
+  - destruct s1 as [cfg st step stid ready q p env]. exact Hr1.
+  - unfold now_d in *. destruct s1 as [cfg st step stid ready q p env]. destruct env as [nw fs rw lg]. cbn in Hnow |- *.
+    unfold timed_out. cbn [fst snd]. apply Z.leb_gt. lia.
 Qed.
 
 Lemma count_exact : forall (k : nat) (ss : nat -> dst) (r : rcfg) (c0 : Z),
@@ -138,17 +199,84 @@ Lemma hr_not_nak : forall pkt,
   (match pkt with Some (PNak _ _ _ _) => False | _ => True end) -> handle_retransmission pkt = ret false.
 Proof. intros [[]|] H; try reflexivity. contradiction. Qed.
 
+(* ---- the configuration of the sender is read-only *)
+Definition cpres {A} (m : SM A) : Prop := forall s, s_cfg (fst (m s)) = s_cfg s.
+Lemma cpres_ret : forall A (a : A), cpres (ret a : SM A).
+Proof. intros A a s. reflexivity. Qed.
+Lemma cpres_raise : forall A e, cpres (raise e : SM A).
+Proof. intros A e s. reflexivity. Qed.
+Lemma cpres_gets : forall A (f : src -> A), cpres (gets f).
+Proof. intros A f s. reflexivity. Qed.
+Lemma cpres_modify : forall (f : src -> src), (forall s, s_cfg (f s) = s_cfg s) -> cpres (modify f).
+Proof. intros f H s. cbn. apply H. Qed.
+Lemma cpres_bind : forall A B (m : SM A) (f : A -> SM B), cpres m -> (forall a, cpres (f a)) -> cpres (bind m f).
+Proof.
+  intros A B m f Hm Hf s. unfold bind. specialize (Hm s).
+  destruct (m s) as [s' [a|e]]; cbn in *; [rewrite Hf; exact Hm | exact Hm].
+Qed.
+Lemma cpres_when : forall b (m : SM unit), cpres m -> cpres (when b m).
+Proof. intros [] m H; [exact H | apply cpres_ret]. Qed.
+Create HintDb cpres.
+Ltac cpres_step :=
+  match goal with
+  | |- cpres (ret _) => apply cpres_ret
+  | |- cpres (raise _) => apply cpres_raise
+  | |- cpres (gets _) => apply cpres_gets
+  | |- cpres (modify _) => apply cpres_modify; intros []; reflexivity
+  | |- cpres (when _ _) => apply cpres_when
+  | |- cpres (bind _ _) => apply cpres_bind; [| intro]
+  | |- cpres (match ?x with _ => _ end) => destruct x
+  | |- cpres _ => solve [auto with cpres]
+  end.
+Ltac cpres_all := intros; repeat cpres_step.
+Lemma cpres_gq : forall A (f : sparams -> A), cpres (gq f). Proof. unfold gq; cpres_all. Qed.
+Lemma cpres_setq : forall f, cpres (setq f). Proof. unfold setq; cpres_all. Qed.
+Lemma cpres_sset_step : forall v, cpres (sset_step v). Proof. unfold sset_step; cpres_all. Qed.
+Lemma cpres_semit : forall e, cpres (semit e). Proof. unfold semit; cpres_all. Qed.
+Lemma cpres_snow : cpres snow. Proof. unfold snow; cpres_all. Qed.
+Lemma cpres_sadd_packet : forall p, cpres (sadd_packet p). Proof. unfold sadd_packet; cpres_all. Qed.
+Lemma cpres_sreset_internal : forall c, cpres (sreset_internal c). Proof. unfold sreset_internal; cpres_all. Qed.
+#[local] Hint Resolve cpres_gq cpres_setq cpres_sset_step cpres_semit cpres_snow cpres_sadd_packet cpres_sreset_internal : cpres.
+Lemma cpres_stid_or_assert : cpres stid_or_assert. Proof. unfold stid_or_assert; cpres_all. Qed.
+Lemma cpres_srcfg_or_assert : cpres srcfg_or_assert. Proof. unfold srcfg_or_assert; cpres_all. Qed.
+Lemma cpres_stmode : cpres stmode. Proof. unfold stmode, get; intros s; reflexivity. Qed.
+Lemma cpres_put_or_assert : cpres put_or_assert. Proof. unfold put_or_assert; cpres_all. Qed.
+#[local] Hint Resolve cpres_stid_or_assert cpres_srcfg_or_assert cpres_stmode cpres_put_or_assert : cpres.
+Lemma cpres_smode_is : forall m, cpres (smode_is m). Proof. unfold smode_is; cpres_all. Qed.
+Transparent checksum_calculation.
+Lemma cpres_checksum_calculation : forall sz, cpres (checksum_calculation sz).
+Proof. unfold checksum_calculation; cpres_all. Qed.
+Opaque checksum_calculation.
+Lemma cpres_prepare_eof_pdu : forall ck, cpres (prepare_eof_pdu ck). Proof. unfold prepare_eof_pdu; cpres_all. Qed.
+Lemma cpres_start_positive_ack_procedure_s : cpres start_positive_ack_procedure_s.
+Proof. unfold start_positive_ack_procedure_s; cpres_all. Qed.
+#[local] Hint Resolve cpres_smode_is cpres_checksum_calculation cpres_prepare_eof_pdu cpres_start_positive_ack_procedure_s : cpres.
+Lemma cpres_notice_of_completion_s : cpres notice_of_completion_s. Proof. unfold notice_of_completion_s; cpres_all. Qed.
+#[local] Hint Resolve cpres_notice_of_completion_s : cpres.
+Lemma cpres_handle_eof_sent : forall c, cpres (handle_eof_sent c). Proof. unfold handle_eof_sent; cpres_all. Qed.
+#[local] Hint Resolve cpres_handle_eof_sent : cpres.
+Lemma cpres_notice_of_cancellation_s : forall c, cpres (notice_of_cancellation_s c).
+Proof. unfold notice_of_cancellation_s; cpres_all. Qed.
+#[local] Hint Resolve cpres_notice_of_cancellation_s : cpres.
+Lemma cpres_declare_fault_s : forall c, cpres (declare_fault_s c). Proof. unfold declare_fault_s; cpres_all. Qed.
+
+(* the check timer expired, Check Limit Reached not handled by IGNORE (statement corrected after the F34 repair: an
+   ignored fault now restarts the timer, see source_check_limit_ignored_waits_again) *)
 Lemma source_check_timer : forall s pkt t,
   (match pkt with Some (PFinished _ _ _ _ _) => False | Some (PNak _ _ _ _) => False | _ => True end) ->
   q_check_timer (s_p s) = Some t -> timed_out (now_s s) t = true ->
+  fault_ignored (s_cfg s) C_CHECK_LIMIT = false ->
   handle_wait_for_finish pkt s = declare_fault_s C_CHECK_LIMIT s.
 Proof.
-  intros s pkt t Hp Ht Hto. unfold now_s in Hto.
+  intros s pkt t Hp Ht Hto Hni. unfold now_s in Hto.
+  pose proof (cpres_declare_fault_s C_CHECK_LIMIT s) as Hc.
   unfold handle_wait_for_finish. rewrite hr_not_nak by (destruct pkt as [[]|]; tauto).
   unfold smode_is, stmode, snow, gq, gets, get, bind, ret.
   destruct (match (if s_state s =? ST_IDLE then None else Some (sc_mode (q_conf (s_p s)))) with
             | Some x => x =? ACKED | None => false end);
-    destruct pkt as [[]|]; try contradiction; cbv beta iota; rewrite Ht; cbv beta iota; rewrite Hto; reflexivity.
+    destruct pkt as [[]|]; try contradiction; cbv beta iota; rewrite Ht; cbv beta iota; rewrite Hto; unfold when;
+    destruct (declare_fault_s C_CHECK_LIMIT s) as [s' [[]|e]]; cbn [fst] in Hc; try reflexivity;
+    rewrite Hc, Hni; reflexivity.
 Qed.
 
 Lemma source_check_timer_running : forall s pkt t,
@@ -163,3 +291,78 @@ Proof.
             | Some x => x =? ACKED | None => false end);
     destruct pkt as [[]|]; try contradiction; cbv beta iota; rewrite Ht; cbv beta iota; rewrite Hto; reflexivity.
 Qed.
+
+(* the check timer expired and Check Limit Reached is handled by IGNORE (F34 repair): one callback, the timer is
+   restarted at the current time, nothing else changes: the handler keeps waiting for the Finished PDU *)
+Lemma source_check_limit_ignored : forall s pkt t a b,
+  (match pkt with Some (PFinished _ _ _ _ _) => False | Some (PNak _ _ _ _) => False | _ => True end) ->
+  q_check_timer (s_p s) = Some t -> timed_out (now_s s) t = true ->
+  q_tid (s_p s) = Some (a, b) ->
+  get_fault_handler (l_faults (s_cfg s)) C_CHECK_LIMIT = Some FH_IGNORE ->
+  handle_wait_for_finish pkt s =
+    (s <| s_env ::= (fun en => en <| e_log ::= cons (EvFault FH_IGNORE a b C_CHECK_LIMIT (q_progress (s_p s))) |>) |>
+       <| s_p ::= (fun q => q <| q_check_timer := Some (now_s s, snd t) |>) |>, Ok tt).
+Proof.
+  intros s pkt t a b Hp Ht Hto Htid Hfh. unfold now_s in *.
+  unfold handle_wait_for_finish. rewrite hr_not_nak by (destruct pkt as [[]|]; tauto).
+  unfold smode_is, stmode, snow, gq, gets, get, bind, ret.
+  destruct (match (if s_state s =? ST_IDLE then None else Some (sc_mode (q_conf (s_p s)))) with
+            | Some x => x =? ACKED | None => false end);
+    destruct pkt as [[]|]; try contradiction; cbv beta iota; rewrite Ht; cbv beta iota; rewrite Hto; unfold when;
+    unfold declare_fault_s, fault_ignored, semit, setq, modify, gq, gets, bind, ret;
+    rewrite Htid; cbv beta iota; rewrite Hfh;
+    change (FH_IGNORE =? FH_CANCEL) with false; change (FH_IGNORE =? FH_ABANDON) with false; cbv beta iota;
+    cbn [negb]; cbv beta iota; destruct s as [cfg st step rd q p sb pt sc sbits env]; cbn in Hfh |- *; rewrite Hfh;
+    change (FH_IGNORE =? FH_IGNORE) with true; reflexivity.
+Qed.
+
+(* ... the handler is still waiting for the Finished PDU, and the following call before the next expiry delivers nothing *)
+Lemma source_check_limit_ignored_waits_again : forall s pkt pkt' t a b dt,
+  (match pkt with Some (PFinished _ _ _ _ _) => False | Some (PNak _ _ _ _) => False | _ => True end) ->
+  (match pkt' with Some (PFinished _ _ _ _ _) => False | Some (PNak _ _ _ _) => False | _ => True end) ->
+  q_check_timer (s_p s) = Some t -> timed_out (now_s s) t = true ->
+  q_tid (s_p s) = Some (a, b) ->
+  get_fault_handler (l_faults (s_cfg s)) C_CHECK_LIMIT = Some FH_IGNORE ->
+  dt < snd t ->
+  let s1 := s <| s_env ::= (fun en => en <| e_log ::= cons (EvFault FH_IGNORE a b C_CHECK_LIMIT (q_progress (s_p s))) |>) |>
+              <| s_p ::= (fun q => q <| q_check_timer := Some (now_s s, snd t) |>) |> in
+  let s2 := s1 <| s_env ::= (fun en => en <| e_now ::= Z.add dt |>) |> in
+  handle_wait_for_finish pkt s = (s1, Ok tt) /\
+  s_state s1 = s_state s /\ s_step s1 = s_step s /\ s_queue s1 = s_queue s /\ s_ready s1 = s_ready s /\
+  log_s s1 = EvFault FH_IGNORE a b C_CHECK_LIMIT (q_progress (s_p s)) :: log_s s /\
+  q_check_timer (s_p s1) = Some (now_s s, snd t) /\
+  handle_wait_for_finish pkt' s2 = (s2, Ok tt).
+Proof.
+  intros s pkt pkt' t a b dt Hp Hp' Ht Hto Htid Hfh Hdt s1 s2.
+  split; [exact (source_check_limit_ignored s pkt t a b Hp Ht Hto Htid Hfh)|].
+  subst s2 s1. destruct s as [cfg st step rd q p sb pt sc sbits env]. destruct env as [nw fs rw lg].
+  repeat (split; [reflexivity|]).
+  apply (source_check_timer_running _ pkt' (nw, snd t) Hp'); [reflexivity|].
+  unfold now_s, timed_out. cbn. apply Z.leb_gt. lia.
+Qed.
+
+(* the same through the entry point, from a fresh handler: an unacknowledged transfer with closure whose Finished PDU never
+   comes, Check Limit Reached handled by IGNORE, check timer 700 ms: the fault is declared by the call at 700, not by
+   the calls at 705, 710 and 1399, and again (one interval later) by the call at 1400; the handler keeps waiting *)
+Definition exs_r : rcfg := mkRcfg 2 2 (Some 4) 64 true false UNACKED CK_CRC32 1000 2 2 false false 1000 2.
+Definition exs_c (faults : list (Z * Z)) : lcfg := mkLcfg 1 2 true true true true faults 700 [exs_r].
+Definition exs_put : putreq := mkPut 2 2 None None (Some ([1], [2])) None.
+Fixpoint exs_polls (dts : list Z) (s : src) : src * res Z (list (list pdu)) :=
+  match dts with
+  | [] => (s, Ok [])
+  | dt :: t => match pump (s <| s_env ::= (fun e => e <| e_now ::= Z.add dt |>) |>) with
+               | (s', Ok ps) => match exs_polls t s' with
+                                | (s'', Ok rest) => (s'', Ok (ps :: rest))
+                                | (s'', Err e) => (s'', Err e)
+                                end
+               | (s', Err e) => (s', Err e)
+               end
+  end.
+Example ex_source_check_limit_ignored :
+  let s0 := fst (put_request exs_put (src_fresh (exs_c ((C_CHECK_LIMIT, FH_IGNORE) :: default_fault_table)) 5 16
+                                        [([1], File [1; 2; 3; 4; 5; 6])])) in
+  let '(s, o) := exs_polls [0; 0; 0; 0; 0; 0; 700; 5; 5; 689; 1] s0 in
+  (match o with Ok x => map zlen x | Err _ => [] end, s_state s, s_step s, q_check_timer (s_p s), now_s s, log_s s) =
+  ([1; 1; 1; 1; 0; 0; 0; 0; 0; 0; 0], ST_BUSY, SS_WAITING_FOR_FINISHED, Some (1400, 700), 1400,
+   [EvFault FH_IGNORE 1 5 C_CHECK_LIMIT 6; EvFault FH_IGNORE 1 5 C_CHECK_LIMIT 6; EvEofSent 1 5; EvTransaction 1 5 None]).
+Proof. vm_compute. reflexivity. Qed.
